@@ -19,9 +19,30 @@ def _bytes_digest(b):
     return hashlib.md5(b).hexdigest()
 
 
+_HOOKS = []
+
+
+class hook:
+    """Context manager installing a substitution hook: hook(o) -> NotImplemented or a replacement object."""
+
+    def __init__(self, fn):
+        self.fn = fn
+
+    def __enter__(self):
+        _HOOKS.append(self.fn)
+
+    def __exit__(self, *a):
+        _HOOKS.pop()
+
+
 def canon(o, seen=None, opaque_by_id=True):
     if seen is None:
         seen = {}
+    if _HOOKS and not isinstance(o, (bool, int, float, str, bytes, type(None))):
+        r = _HOOKS[-1](o)
+        if r is not NotImplemented:
+            # the replacement is walked with the hook still active (it must not contain `o` itself)
+            return ('hk', canon(r, seen, opaque_by_id))
     if o is None or isinstance(o, (bool, int, str, bytes, complex)):
         return ('v', repr(o))
     if isinstance(o, float):
@@ -39,9 +60,12 @@ def canon(o, seen=None, opaque_by_id=True):
     if oid in seen:
         return ('ref', seen[oid])
     seen[oid] = len(seen)
+    seen.setdefault('__keep__', []).append(o)   # pin temporaries: their ids must not be reused during the walk
     if isinstance(o, dict):
-        items = [(canon(k, seen, opaque_by_id), canon(v, seen, opaque_by_id)) for k, v in o.items()]
-        return ('d', tuple(sorted(items, key=repr)))
+        # keys first (almost always primitives), then values in sorted-key order, so that back-reference
+        # numbering does not depend on dict insertion order
+        ks = sorted(((canon(k, seen, opaque_by_id), k) for k in o.keys()), key=lambda t: repr(t[0]))
+        return ('d', tuple((ck, canon(o[k], seen, opaque_by_id)) for ck, k in ks))
     if isinstance(o, (list, tuple)):
         return ('l', tuple(canon(x, seen, opaque_by_id) for x in o))
     if isinstance(o, (set, frozenset)):
